@@ -2149,6 +2149,11 @@ func (w *sessWorld) finalOracles() {
 		}
 	}
 	if w.sessionDead() {
+		if w.crashed {
+			// the planned fault fired while this very check was being evaluated (IsClosed is a scheduling point)
+			w.survivorOracles()
+			return
+		}
 		if w.on("C14") {
 			w.fail("C14.session_died", "a session closed although no fault was injected")
 		}
